@@ -1,6 +1,7 @@
 package rules
 
 import (
+	"fmt"
 	"go/ast"
 	"go/token"
 	"go/types"
@@ -208,16 +209,65 @@ func ruleTxToScriptShape(c *core.Ctx) {
 			collect = append(collect, r)
 		}
 	}
+	unrec := func(why string) {
+		c.Unrecognised("SHAPE/tx-to-script", key+":rendering", pos(c, d.Decl), why+" — the per-posting rendering obligations (send per posting, monetary key, account variables, source/destination clauses, overdraft clause, exported variables) are not evaluated")
+	}
 	if emit == nil || len(collect) == 0 {
-		fail("loops", "expected one collecting loop and one emitting loop over txData.Postings", d.Decl)
+		unrec("TxToScriptData no longer has one collecting loop and one emitting loop over txData.Postings")
 		return
 	}
 	pv, _ := emit.Value.(*ast.Ident)
 	if pv == nil {
-		fail("emit-loop-var", "emission loop has no value variable", emit)
+		unrec("the emission loop has no value variable")
 		return
 	}
 	p := info.ObjectOf(pv)
+	// skeleton: the emitting loop decides source and destination with two `if p.X == world`
+	// statements of its own, and the collecting loop(s) fill the variable maps in place (not
+	// through helpers or closures). Otherwise the rendering was restructured: nothing is read off.
+	{
+		worldIfs := 0
+		for _, st := range emit.Body.List {
+			if is, ok := st.(*ast.IfStmt); ok {
+				if be, ok := ast.Unparen(is.Cond).(*ast.BinaryExpr); ok && be.Op == token.EQL && isWorldConst(info, be.Y) {
+					if _, ok := loopVarSel(info, be.X, p); ok {
+						worldIfs++
+					}
+				}
+			}
+		}
+		inPlace := 0
+		for _, cl := range collect {
+			lv, _ := cl.Value.(*ast.Ident)
+			if lv == nil {
+				continue
+			}
+			lobj := info.ObjectOf(lv)
+			ast.Inspect(cl.Body, func(n ast.Node) bool {
+				if _, isLit := n.(*ast.FuncLit); isLit {
+					return false
+				}
+				as, ok := n.(*ast.AssignStmt)
+				if !ok || len(as.Lhs) != 1 || len(as.Rhs) != 1 {
+					return true
+				}
+				if ix, ok := as.Lhs[0].(*ast.IndexExpr); ok {
+					if _, isCL := as.Rhs[0].(*ast.CompositeLit); isCL {
+						if _, isSide := loopVarSel(info, ix.Index, lobj); isSide {
+							inPlace++
+						} else if _, isID := ix.Index.(*ast.Ident); isID {
+							inPlace++
+						}
+					}
+				}
+				return true
+			})
+		}
+		if worldIfs != 2 || inPlace < 3 {
+			unrec(fmt.Sprintf("the rendering of TxToScriptData was restructured (world tests in the emitting loop: %d, in-place variable registrations: %d)", worldIfs, inPlace))
+			return
+		}
+	}
 
 	// 2. no skipping in the emission loop
 	skip := ast.Node(nil)
@@ -603,7 +653,11 @@ func rulePostingsRequestCallers(c *core.Ctx) {
 		arg := types.ExprString(s.Call.Args[1])
 		switch relPkg(s.Pkg.PkgPath) {
 		case pkgAPIv1:
-			c.Check(arg == "false", "DOM/postings-request", key+":force", pos(c, s.Call), "v1 has no force", "v1 postings requests must not allow unbounded overdrafts")
+			isFalse := arg == "false"
+			if tv, ok := info.Types[s.Call.Args[1]]; ok && tv.Value != nil && tv.Value.String() == "false" {
+				isFalse = true // a named constant
+			}
+			c.Check(isFalse, "DOM/postings-request", key+":force", pos(c, s.Call), "v1 has no force", "v1 postings requests must not allow unbounded overdrafts")
 		default:
 			c.Check(strings.HasSuffix(arg, ".Force"), "DOM/postings-request", key+":force", pos(c, s.Call), "Force forwarded", "the request's force flag is not forwarded to TxToScriptData: a forced postings request can fail with insufficient funds")
 		}
